@@ -76,6 +76,8 @@ def cases(tier, rng):
         for o in (0, 1, 2):
             for d in (-3, -1, 0, 2):
                 yield Case("note.change_octave", [x, o, d], "change_octave", kind=("oct",))
+    for c in sequence_cases():
+        yield c
     for _ in range(150 if tier == "quick" else 1500):
         items = [c for c in (rand_content(rng) for _ in range(1)) if c][0:1]
         if items:
@@ -94,6 +96,30 @@ def cases(tier, rng):
                 ops.append(["add", rand_content(rng), rng.choice(VALUES)])
         ops += [rand_transform(rng) for _ in range(rng.randint(1, 6))]
         yield Case("track.run", ["none", ops], "track", kind=("track",))
+
+# melodic sequences: every bar holds what the bar before it becomes under the transformation, so that a bar, once
+# transformed, EQUALS a later bar that is still to be transformed (and bars that are equal from the start)
+SEQUENCES = [
+    ([("C", 4), ("D", 4), ("E", 4), ("F#", 4)], ["transpose", "2", True]),
+    ([("E", 4), ("D", 4), ("C", 4), ("Bb", 3)], ["transpose", "2", False]),
+    ([("C", 4), ("E", 4), ("G#", 4)], ["transpose", "3", True]),
+    ([("C", 4), ("Eb", 4), ("Gb", 4), ("Bbb", 4)], ["transpose", "b3", True]),
+    ([("C", 4), ("G", 4), ("D", 5), ("A", 5)], ["transpose", "5", True]),
+    ([("C", 5), ("G", 4), ("D", 4), ("A", 3)], ["transpose", "4", False]),
+    ([("C", 4), ("C#", 4), ("C##", 4)], ["augment"]),
+    ([("C", 4), ("Cb", 4), ("Cbb", 4)], ["diminish"]),
+    ([("C", 4), ("C", 4), ("D", 4), ("C", 4), ("D", 4)], ["transpose", "2", True]),
+    ([("A", 3), ("A", 3), ("A", 3)], ["transpose", "b7", False]),
+]
+def sequence_cases():
+    for notes, tr in SEQUENCES:
+        for value in (1, 2):             # one note per 4/4 bar, or two equal notes per bar
+            ops = []
+            for (n, o) in notes:
+                for _ in range(value):
+                    ops.append(["add", [["obj", n, o]], value])
+            yield Case("track.run", ["none", ops + [tr]], "track/sequence", kind=("track",))
+            yield Case("track.run", ["none", ops + [tr, tr]], "track/sequence", kind=("track",))
 
 def spec_transpose(nm, o, sh, up):
     """(letter, pitch) the statement prescribes"""
